@@ -214,11 +214,22 @@ reg(C01("C01"))
 class C02(TreeCheck):
     obligations = [("main", "L2BndS", "parseBlocks_bounds"), ("main", "C01a", "C01_ordered"), ("main", "NoPanicAll", "parseBlocks_no_panic"),
                    ("main", "BlockSpans", "parseBlocks_block_spans"), ("main", "BlockSpans", "parseFull_block_spans"),
-                   # SPANS-PENDING ("main", "InlineSpans", "parseInlines_spans"), ("main", "InlineSpans", "parseInlines_spans_reduction"),
-                   ("main", "Total", "parseBlocks_total")]
+                   ("main", "InlineSpans", "parseInlines_spans"), ("main", "InlineSpans", "parseInlines_spans_reduction"), ("main", "InlineSpans", "parseInlines_spans_literal_false"),
+                   ("main", "SpanHyp", "entriesOKX_eq"), ("main", "SpanHyp", "rewrite_roots_inline_spans"), ("main", "Total", "parseBlocks_total")]
     proj = staticmethod(proj_spans)
     what = "span structure"
-    assumptions = ["partial: proved for every input: every block span is valid, lies inside its parent and consecutive block children are ordered and disjoint, root starts are non-negative (parseFull_block_spans), and the ends of blocks and inline entries are bounded by the line read so far; inline level: for every leaf block whose entry list satisfies the executable condition entriesOK (entries valid, ordered, inside the block, Indent entries one byte wide, no entry ending on a backslash-newline inside a link tail), every inline node produced by parseInlines (after emphasis processing and link surgery) has a valid span inside its parent, siblings ordered and disjoint (InlineSpans.parseInlines_spans); without the last clause of entriesOK the statement is false, witness proved (parseInlines_spans_literal_false: defect D23, repaired in /repo); that the block layer always produces entriesOK entry lists is not proved; that and the character-boundary clause are decided by the correspondence, the span oracle and the formal statement evaluated on the implementation's trees"]
+
+    def jobs(self, seed, tier):
+        js = TreeCheck.jobs(self, seed, tier)
+
+        def hyp(cases):
+            a = run.harness("blocks", lines_of(cases))
+            b = run.model("entriesok", [strip_refs(x) for x in a])
+            return [(i, a[i][:500], b[i], "hypothesis entriesOKroots of SpanHyp.rewrite_roots_inline_spans on the implementation's pre-inline tree")
+                    for i in range(len(a)) if is_obs(a[i]) and b[i] != "1"]
+        js.append(Job("entry conditions of the inline-span theorem on the implementation's pre-inline trees", js[0].cases, corr=hyp))
+        return js
+    assumptions = ["partial: proved for every input: every block span is valid, lies inside its parent and consecutive block children are ordered and disjoint, root starts are non-negative (parseFull_block_spans), and the ends of blocks and inline entries are bounded by the line read so far; inline level: for every leaf block whose entry list satisfies the executable condition entriesOK (entries valid, ordered, inside the block; only Unparsed/Indent entries; Indent entries one byte wide and at most 3 columns; every entry but the last non-empty and ending in a line ending; the byte after the last entry is blank or past the source), every inline node produced by parseInlines (after emphasis processing and link surgery) has a valid span inside its parent, siblings ordered and disjoint (InlineSpans.parseInlines_spans, lifted to everything Rewrite does to a root block in SpanHyp.rewrite_roots_inline_spans); the run evaluates that condition on the implementation's own pre-inline trees, so the theorem applies to each of them given the tie of the inline parser; for arbitrary (adversarial) entry lists the statement is false, witness proved (parseInlines_spans_literal_false); the proof found defect D23 (a Text child past its LinkDestination parent), repaired in /repo (8f64b82); that the block layer always produces entriesOK entry lists is not proved; that and the character-boundary clause are decided by the correspondence, the span oracle and the formal statement evaluated on the implementation's trees"]
 
 
 reg(C02("C02"))
@@ -458,14 +469,39 @@ def emph_strings(seed, tier):
 
 class C11(Check):
     rule = "all strings up to length 5 (quick) / 7 (thorough) over {*, _, a, space, '.', e-acute}, plus random strings of 6-45 symbols adding a non-ASCII punctuation mark and a no-break space; non-trivial = contains a delimiter run"
-    obligations = [("main", "TieInline", "tie_inline"), ("emph", "EmphProof", "process_emphasis_opt_sound"), ("main", "PEProof", "processEmphasis_opt_sound")]
-    assumptions = ["proved: the openers_bottom search bounds never change the result of the procedure (abstract delimiter lists of any length, and on the transcription of processEmphasis with its tree surgery); flanking flags and the tokeniser are tied by the correspondence; the oracle is an independent Go transcription of the spec procedure without the bound"]
+    obligations = [("main", "TieInline", "tie_inline"), ("emph", "EmphProof", "process_emphasis_opt_sound"), ("main", "PEProof", "processEmphasis_opt_sound"),
+                   ("main", "EmphSlice", "C11_slice"), ("main", "EmphSlice", "C11_parseInlines"), ("main", "EmphSlice", "C11_emphasis_slice"), ("main", "EmphSlice", "C11_opt"),
+                   ("main", "EmphSlice", "C11_structure"), ("main", "EmphFlags", "emphasisFlags_spec")]
+    assumptions = ["proved: the openers_bottom search bounds never change the result of the procedure (abstract delimiter lists of any length, and on the transcription of processEmphasis with its tree surgery); end to end on a vertical slice (EmphSlice.C11_slice): for every line of any length over letters, single spaces, '*', '_' and the bytes . , ; : ( ) and both quote characters that starts with a letter, parseInlines / parseFull of the model produce exactly the forest that the CommonMark 0.30 delimiter-run procedure denotes (flanking from the spec's definitions, EmphFlags.emphasisFlags_spec; process-emphasis without openers_bottom; matches replayed on the token list), the spec run terminates within its fuel, and the run with openers_bottom gives the same events; outside that alphabet (links, code spans, entities, escapes, Unicode punctuation/whitespace next to runs) flanking flags and the tokeniser are tied by the correspondence; the oracle is an independent Go transcription of the spec procedure without the bound"]
 
     def jobs(self, seed, tier):
         cases = [(s, "0") for s in emph_strings(seed, tier)]
         j = Job("emphasis strings", cases, corr=two_sided("html", "html", ident, "HTML of one-paragraph documents"), judge_mode="judge:C11",
                 nontrivial=lambda c: b"*" in c[0] or b"_" in c[0])
-        return [j]
+        # the slice of EmphSlice.C11_slice: the forest denoted by the spec's procedure (extracted EmphSpec.specForest)
+        # against the implementation's tree
+        rng = random.Random(seed ^ 0xe11)
+        n = size(tier, 1500, 60000)
+        sl = []
+        alpha = ["*", "_", "*", "_", "**", "__", "***", "a", "b", "Z", " ", " ", ".", ",", ";", ":", "(", ")", '"', "'"]
+        while len(sl) < n:
+            t = rng.choice("abXy") + "".join(rng.choice(alpha) for _ in range(rng.randrange(1, 14 if rng.random() < 0.9 else 60)))
+            t = re.sub(" +", " ", t)
+            sl.append((t.encode(), ""))
+
+        def slice_corr(cases):
+            a = run.harness("full", lines_of([(c + b"\n", "") for c, _ in cases]))
+            b = run.model("emphspec", lines_of(cases))
+            out = []
+            for i in range(len(cases)):
+                if b[i] == "skip":
+                    continue
+                m = re.match(r"\(R 1 0 \d+ [0-9a-f]+ \(B \d+ \d+ \d+ 0 0 0 -?\d+(.*)\)\) M$", a[i])
+                got = m.group(1).replace(" (", "(").strip() if m else a[i]
+                if got != b[i].replace(" (", "(").strip():
+                    out.append((i, got, b[i], "inline forest of the paragraph vs EmphSpec.specForest"))
+            return out
+        return [j, Job("emphasis slice against the spec procedure", sl, corr=slice_corr, corr_is_spec=True)]
 
 
 reg(C11("C11"))
